@@ -797,3 +797,79 @@ pub fn render_upper(p: &Program) -> String {
     }
     s
 }
+
+// ---------------------------------------------------------------------------------------------
+// terse constructors for hand-written reference programs
+
+pub mod b {
+    use super::*;
+    pub fn r8(n: &str) -> Opnd {
+        Opnd::R8(REG8.iter().position(|x| *x == n).expect("r8"))
+    }
+    pub fn r16(n: &str) -> Opnd {
+        Opnd::R16(REG16.iter().position(|x| *x == n).expect("r16"))
+    }
+    pub fn sr(n: &str) -> Opnd {
+        Opnd::Seg(SEGS.iter().position(|x| *x == n).expect("seg"))
+    }
+    pub fn imm(v: i32) -> Opnd {
+        Opnd::Imm(v)
+    }
+    pub fn lab8(l: &str) -> Opnd {
+        Opnd::Label(W::B, l.into())
+    }
+    pub fn lab16(l: &str) -> Opnd {
+        Opnd::Label(W::W, l.into())
+    }
+    pub fn direct(w: W, n: u16) -> Opnd {
+        Opnd::Mem(w, Mem { seg: None, form: MemForm::Direct(n) })
+    }
+    pub fn ind(w: W, reg: &str) -> Opnd {
+        Opnd::Mem(w, Mem { seg: None, form: MemForm::Reg(REG16.iter().position(|x| *x == reg).expect("reg")) })
+    }
+    pub fn mov(a: Opnd, b: Opnd) -> Item {
+        Item::Ins(Instr::Mov(a, b))
+    }
+    pub fn bin(op: BinOp, a: Opnd, b: Opnd) -> Item {
+        Item::Ins(Instr::Bin(op, a, b))
+    }
+    pub fn un(op: UnOp, a: Opnd) -> Item {
+        Item::Ins(Instr::Un(op, a))
+    }
+    pub fn z(op: ZeroOp) -> Item {
+        Item::Ins(Instr::Zero(op))
+    }
+    pub fn jmp(mn: &str, l: &str) -> Item {
+        Item::Ins(Instr::Jmp(mn.into(), l.into()))
+    }
+    pub fn label(l: &str) -> Item {
+        Item::Label(l.into())
+    }
+    pub fn call(n: &str) -> Item {
+        Item::Ins(Instr::Call(n.into()))
+    }
+    pub fn int(n: u8) -> Item {
+        Item::Ins(Instr::Int(n))
+    }
+    pub fn print(k: PrintKind) -> Item {
+        Item::Ins(Instr::Print(k))
+    }
+    pub fn strop(rep: Option<Rep>, op: StrOp, w: W) -> Item {
+        Item::Ins(Instr::Str(rep, op, w))
+    }
+    pub fn push(a: Opnd) -> Item {
+        Item::Ins(Instr::Push(a))
+    }
+    pub fn pop(a: Opnd) -> Item {
+        Item::Ins(Instr::Pop(a))
+    }
+    pub fn proc(n: &str, body: Vec<Item>) -> Item {
+        Item::Proc(n.into(), body)
+    }
+    pub fn db(l: Option<&str>, v: i32) -> DataDef {
+        DataDef::Val(l.map(|s| s.to_string()), W::B, v)
+    }
+    pub fn dw(l: Option<&str>, v: i32) -> DataDef {
+        DataDef::Val(l.map(|s| s.to_string()), W::W, v)
+    }
+}
